@@ -323,14 +323,18 @@ func (o *oracles) restartAndCheckN(dir string, before, after *modelAt, what stri
 	if s.res.Viol != nil || !o.furtherHistory {
 		return
 	}
-	o.secondLife(dir, r.State, vr.View, what)
+	var processed []string
+	if after != nil {
+		processed = after.processed
+	}
+	o.secondLife(dir, r.State, vr.View, what, processed)
 }
 
 // secondLife: "followed by any further history" — after the crash restart
 // settled, a few more acknowledged operations (a new tag, on-demand
 // conversions that append to the converter cache), then a clean restart on
 // the same directory; everything acknowledged in either life must be there.
-func (o *oracles) secondLife(dir string, st1 *manager.VerifState, v1 *ViewSig, what string) {
+func (o *oracles) secondLife(dir string, st1 *manager.VerifState, v1 *ViewSig, what string, processed []string) {
 	s := o.s
 	what += ", then further operations and a second restart"
 	if r := s.call(CBarrier, Op{K: "New", Name: dir}); r.Err != "" {
@@ -360,6 +364,63 @@ func (o *oracles) secondLife(dir string, st1 *manager.VerifState, v1 *ViewSig, w
 	defer simrt.Restore(sv)
 	addErr := s.call(CMut, Op{K: "AddTag", Name: "tag/z2", Color: "#0f0f0f", Def: "cbytes:1:"}).Err
 	s.settle()
+	// further imports: the captures of the plan that the service had not been
+	// given when it went down arrive now. Only when every capture file that is
+	// in the capture directory had been processed (an upload whose import was
+	// cut off is listed as known by the next start without ever being indexed,
+	// DESIGN §8.4) — then the result must be that of a one-shot import of all.
+	o.secondLives++
+	furtherImported := false
+	if o.secondLives%2 == 0 {
+		d := dirsAt(dir)
+		done := map[string]bool{}
+		for _, f := range processed {
+			done[f] = true
+		}
+		present := map[string]bool{}
+		clean := true
+		if ents, err := os.ReadDir(d.Pcap); err == nil {
+			for _, e := range ents {
+				present[e.Name()] = true
+				if !done[e.Name()] {
+					clean = false
+				}
+			}
+		}
+		var rest []string
+		for _, n := range s.capt.Names {
+			if !present[n] {
+				rest = append(rest, n)
+			}
+		}
+		if clean && len(rest) > 0 {
+			for _, n := range rest {
+				copyFile(filepath.Join(s.scratch, "src", n), d.Pcap+n, 0o644)
+			}
+			s.call(CImp, Op{K: "Import", Convs: rest})
+			s.settle()
+			drain()
+			fv := s.call(CBarrier, Op{K: "FreshView"})
+			if fv.View != nil && fv.View.Err == "" {
+				all := append(append([]string(nil), processed...), rest...)
+				off := o.completeOff
+				o.completeOff = false
+				o.checkComplete(fv.View, all, what+", then the remaining captures "+fmt.Sprint(rest)+" were imported")
+				o.completeOff = off
+				if s.res.Viol != nil {
+					s.call(CView, Op{K: "DropViews"})
+					s.call(CBarrier, Op{K: "Close"})
+					s.alive = false
+					s.killJobs()
+					return
+				}
+				v1 = fv.View
+				furtherImported = true
+				s.res.Count("crash_second_life_further_imports", 1)
+			}
+		}
+	}
+	_ = furtherImported
 	converted := map[string]string{} // conv/stream -> payload digest
 	if len(s.plan.Converters) > 0 {
 		s.call(CView, Op{K: "OpenView", V: 900})
